@@ -7,3 +7,4 @@ PAIRS += [S[k] for k in ("seg_commit_mask", "seg_purge", "seg_commit", "seg_ensu
 import os_common
 O = os_common.pairs()
 PAIRS += [O[k] for k in ("page_align", "os_commit_ex", "os_purge_ex")]
+PAIRS += [A[k] for k in ("arena_try_purge", "purge_range", "arena_purge_seq")]      # a purge pass never hands an in-use block to the OS purge
